@@ -153,8 +153,11 @@ def add_descriptions(text):
     if text.lstrip().startswith("{"):
         return None
     t = re.sub(r"\b(query|mutation|subscription|fragment)\b(?=\s+[_A-Za-z(@{$])", r'"d" \1', text)
-    t = re.sub(r"([(,]\s*)\$", r'\1"""v""" $', t)
-    return t
+    # variable definitions live in the operation header only: never touch argument lists inside selection sets
+    head, brace, rest = t.partition("{")
+    if "=" not in head:  # (a default value may itself contain braces/variables - keep it simple and skip those)
+        head = re.sub(r"([(,]\s*)\$", r'\1"""v""" $', head)
+    return head + brace + rest
 
 
 def check_doc(text, sname, res, viol, pairs=True, tier="quick"):
